@@ -215,8 +215,16 @@ def run_tlc(module, cfg, tag="tlc", workers=None, simulate=None, depth=None, env
         p = subprocess.Popen(["timeout", str(timeout)] + cmd, stdout=subprocess.PIPE, stderr=subprocess.STDOUT,
                              text=True, env=e, cwd=SPEC)
         outl = []
+        # with several workers the order in which states print their JSON is a scheduling accident; the
+        # lines are collected, sorted and put in a seed-determined order so that every run with the same
+        # VERIF_SEED feeds the drivers the same sequence
+        deterministic = (workers or NCPU) != 1
+        held = []
         for line in p.stdout:
             if line.startswith('"{') or line.startswith('"['):
+                if deterministic:
+                    held.append(line)
+                    continue
                 try:
                     obj = json.loads(json.loads(line))
                     if sink:
@@ -228,6 +236,19 @@ def run_tlc(module, cfg, tag="tlc", workers=None, simulate=None, depth=None, env
                     pass
             outl.append(line)
         p.wait()
+        if held:
+            held.sort()
+            random.Random(1000003 * (seed or 0) + 17).shuffle(held)
+            for line in held:
+                try:
+                    obj = json.loads(json.loads(line))
+                except ValueError:
+                    outl.append(line)
+                    continue
+                if sink:
+                    sink(obj)
+                else:
+                    res.json.append(obj)
         res.rc = p.returncode
         res.out = "".join(outl)
     finally:
